@@ -10,8 +10,8 @@ from envlib import Adapter, Config
 class A(Adapter):
     name = "knapsack"
     lean = "knapsack"
-    serves = {"C01", "C04", "C05", "C06", "C08", "C09", "C11", "C12"}
-    ops = ("state", "step", "judge", "bounds")
+    serves = {"C01", "C04", "C05", "C06", "C08", "C09", "C10", "C11", "C12"}
+    ops = ("state", "step", "judge", "bounds", "instance")
     terminate_on_invalid = True
     max_steps = 60
 
@@ -31,7 +31,7 @@ class A(Adapter):
                     return Knapsack(generator=RandomGenerator(num_items=n, total_budget=b),
                                     reward_fn=SparseReward() if dense else DenseReward())
                 out.append(Config(f"knapsack-n{n}-{'dense' if dense else 'sparse'}", build,
-                                  {"dense": dense, "f32": True, "budget": rat(b), "tol": rat(1e-4)},
+                                  {"dense": dense, "f32": True, "budget": rat(b), "tol": rat(1e-4), "num_items": n},
                                   dense=dense, n=n, budget=b, partner=partner))
         # item weights on a coarse grid (multiples of 1/16): an item that fills the bag EXACTLY (weight == remaining budget) is legal
         # by the rules and by the mask; with uniform float weights that boundary is never met
@@ -49,7 +49,7 @@ class A(Adapter):
                 def partnerq(n=n, b=b, dense=dense):
                     return Knapsack(generator=Quantised(num_items=n, total_budget=b), reward_fn=SparseReward() if dense else DenseReward())
                 out.append(Config(f"knapsack-q16-n{n}-{'dense' if dense else 'sparse'}", buildq,
-                                  {"dense": dense, "f32": True, "budget": rat(b), "tol": rat(1e-4)},
+                                  {"dense": dense, "f32": True, "budget": rat(b), "tol": rat(1e-4), "num_items": n},
                                   dense=dense, n=n, budget=b, partner=partnerq))
         return out
 
@@ -70,3 +70,7 @@ class A(Adapter):
 
     def horizon(self, env):
         return env.num_items
+
+    def completed(self, env, s, ts):
+        """the episode ended because no item can be added any more (C06: the final packing must then be maximal)"""
+        return not bool(np.any(np.asarray(ts.observation.action_mask)))
